@@ -236,6 +236,12 @@ Definition default_fuel : nat := 12.
 Definition is_option (t : rty) : bool :=
   match t with RtOption _ | RtBox (RtOption _) | RtBox (RtBox (RtOption _)) => true | _ => false end.
 
+(* `default` + skip_serializing_if = "Vec::is_empty" / "<Map>::is_empty": the member is not written when empty and an
+   absent member is the empty collection -- IR/Serde.v's POptional on a Vec / map (rf_skip_none then stands for
+   "skipped when intrinsically empty") *)
+Definition is_seq_or_map (t : rty) : bool :=
+  match t with RtVec _ | RtMap _ => true | _ => false end.
+
 (* member state (IR/Serde.v: POptional = missing -> Default::default() AND skipped when
    None on output; PDefault v = missing -> v, always written; PRequired on an Option =
    missing -> None, always written) *)
@@ -243,7 +249,7 @@ Definition field_state (U : universe) (cdefault : bool) (f : rfield) : pstate :=
   match rf_default_fn f with
   | Some j => PDefault j       (* a member-level default function wins over the container default *)
   | None =>
-  if rf_skip_none f && is_option (rf_ty f) then POptional
+  if rf_skip_none f && (is_option (rf_ty f) || is_seq_or_map (rf_ty f)) then POptional
   else if rf_default f || cdefault then
     match default_json U default_fuel (rf_ty f) with
     | Some j => PDefault j
